@@ -44,6 +44,7 @@ func payloadOf(got string) string {
 // operation may end with an error that is not a peer reply.
 func (w *cliWorld) checkMatching(final bool, faulty bool) {
 	r := w.r
+	w.stampArrivals()
 	used := map[string]string{}
 	for _, op := range w.ops {
 		if op.Returns > 1 {
@@ -81,8 +82,20 @@ func (w *cliWorld) checkMatching(final bool, faulty bool) {
 			pay := payloadOf(q.Got)
 			var hit *peerReply
 			defectSent := false
-			for i := range q.Replies {
-				rep := &q.Replies[i]
+			// the replies the peer sent for this id (a client that uses an id again
+			// once its request has ended cannot tell for which use a reply was meant)
+			var cands []*peerReply
+			for _, q2 := range w.byID[q.ID] {
+				for i := range q2.Replies {
+					cands = append(cands, &q2.Replies[i])
+				}
+			}
+			if len(cands) == 0 {
+				for i := range q.Replies {
+					cands = append(cands, &q.Replies[i])
+				}
+			}
+			for _, rep := range cands {
 				if rep.Seq > op.Return {
 					continue
 				}
@@ -93,7 +106,7 @@ func (w *cliWorld) checkMatching(final bool, faulty bool) {
 					// leaves a usable result (an unknown extra key, a wrong version
 					// marker) - take that result.
 					defectSent = true
-					if q.GotErr == "" && strings.Contains(q.Got, `"`+rep.Payload+`"`) {
+					if (q.GotErr == "" && strings.Contains(q.Got, `"`+rep.Payload+`"`)) || (q.GotErr != "" && strings.Contains(q.Got+q.GotData, rep.Payload)) {
 						hit = rep
 					}
 					continue
@@ -152,15 +165,32 @@ func (w *cliWorld) checkMatching(final bool, faulty bool) {
 		for i := 0; i < len(qs); i++ {
 			for j := i + 1; j < len(qs); j++ {
 				a, b := w.opOf(qs[i]), w.opOf(qs[j])
-				aEnd, bEnd := a.Return, b.Return
-				if aEnd < 0 {
-					aEnd = 1 << 30
+				// in flight: from transmission until the reply has arrived (or, with
+				// no reply, until the operation returned)
+				end := func(q *creq, op *cop) int {
+					e := op.Return
+					if e < 0 {
+						e = 1 << 30
+					}
+					// any member bearing the id that arrives while the request is out may
+					// end it (its reply; a defective member; with reused ids a late
+					// duplicate meant for an earlier use)
+					out := q.SentSeq // when the client passed it to Send (the peer sees it later)
+					for _, o := range w.sent {
+						if strings.Contains(o.Raw, `"`+q.Tag+`"`) && o.Seq < out {
+							out = o.Seq
+						}
+					}
+					for seq, ev := range w.r.Sim.Events {
+						if seq >= out && seq < e && ev.Kind == "ch.recv.ret" && ev.Tag == "cli" && mentionsID(ev.S, id) {
+							e = seq
+						}
+					}
+					return e
 				}
-				if bEnd < 0 {
-					bEnd = 1 << 30
-				}
+				aEnd, bEnd := end(qs[i], a), end(qs[j], b)
 				if qs[i].SentSeq < bEnd && qs[j].SentSeq < aEnd {
-					r.Fail("id-reused-in-flight", "requests %s and %s were in flight at the same time with the same id %s", qs[i].Tag, qs[j].Tag, id)
+					r.Fail("id-reused-in-flight", "requests %s (sent #%d, reply arrived or operation returned #%d) and %s (sent #%d, ended #%d) were in flight at the same time with the same id %s", qs[i].Tag, qs[i].SentSeq, aEnd, qs[j].Tag, qs[j].SentSeq, bEnd, id)
 					return
 				}
 			}
@@ -570,8 +600,9 @@ func (w *cliWorld) checkC05Final() {
 		// Only errors the harness owns identify a cause: io.EOF (the peer hung
 		// up), the injected channel error, a closed-channel error (the reader saw
 		// its own channel closed: Close). Whatever else the client reports - nil
-		// or its own sentinel for an orderly Close, its own description of an
-		// undecodable record - stands for "Close or malformed record".
+		// or its own sentinel for an orderly Close or for the peer hanging up, its
+		// own description of an undecodable record - cannot be told apart here and
+		// is accepted for whichever cause occurred.
 		kind := "other"
 		switch e := w.onStopErr[0]; {
 		case e == nil:
@@ -585,7 +616,7 @@ func (w *cliWorld) checkC05Final() {
 		}
 		same := func(causeKind string) bool {
 			if kind == "other" {
-				return causeKind == "close" || causeKind == "malformed"
+				return true // an argument the harness cannot identify may stand for any cause
 			}
 			return causeKind == kind
 		}
@@ -713,6 +744,24 @@ func (w *cliWorld) opSendFailedAt(op *cop) int {
 		if !mine {
 			continue
 		}
+		// (a client that sends the record again, successfully, has not failed)
+		resent := false
+		for k2 := k; k2 < len(w.sent); k2++ {
+			if w.sent[k2].Raw == w.sent[k-1].Raw {
+				ok := true
+				for _, f := range w.cEnd.FaultedSends {
+					if f == k2+1 {
+						ok = false
+					}
+				}
+				if ok {
+					resent = true
+				}
+			}
+		}
+		if resent {
+			continue
+		}
 		for seq, e := range w.r.Sim.Events {
 			if e.Kind == "ch.send.end" && e.Tag == "cli" && e.A == k {
 				return seq
@@ -765,4 +814,23 @@ func scenarioC10Client(r *Run) {
 	// the Close count is judged once Close has returned (if it hangs, for a
 	// reason that is another property's, there is nothing to count yet)
 	checkDiscipline(r, w.cEnd, w.sent, closed)
+}
+
+// mentionsID: the inbound record has a member "id" with this value (as a number
+// or as a string of the same digits).
+func mentionsID(raw, id string) bool {
+	for _, pat := range []string{`"id":` + id, `"id":"` + id + `"`, `"id": ` + id} {
+		for i := strings.Index(raw, pat); i >= 0; {
+			rest := raw[i+len(pat):]
+			if rest == "" || !(rest[0] >= '0' && rest[0] <= '9' || rest[0] == '.') {
+				return true
+			}
+			j := strings.Index(rest, pat)
+			if j < 0 {
+				break
+			}
+			i += len(pat) + j
+		}
+	}
+	return false
 }
